@@ -130,7 +130,7 @@ def partial_transpose(
 
     if dim is None:
         dim = np.array([[sqrt_rho_dims[0], sqrt_rho_dims[0]], [sqrt_rho_dims[1], sqrt_rho_dims[1]]])
-    if isinstance(dim, float):
+    if isinstance(dim, (int, float, np.integer)):
         dim = np.array([dim])
     if isinstance(dim, list):
         dim = np.array(dim)
